@@ -12,6 +12,7 @@ import datetime
 import decimal
 import importlib
 import io
+import typing
 import uuid
 import itertools
 import json
@@ -321,6 +322,12 @@ def bounded_agreement(tier, seed):
         yield "content-type-given-by-the-caller-in-lower-case", {}, [dict(variables={"a": 1}, headers={"content-type": "application/graphql+json"})]
         yield "upload-whose-stream-was-read-before", {}, [dict(variables={"f": "UPLOAD-READ"})]
         yield "the-same-upload-in-two-successive-calls", {}, [dict(variables={"f": "UPLOAD-0"}), dict(variables={"f": "UPLOAD-0", "g": "UPLOAD-1"})]
+        import pydantic
+        aliased = type("In", (BM.BaseModel,), {"__annotations__": {"camel_case": int, "from_": typing.Optional[str], "items": typing.List[typing.Optional[float]]},
+                                              "camel_case": pydantic.Field(alias="camelCase"), "from_": pydantic.Field(alias="from", default=None)})
+        yield "input-models-with-renamed-fields-and-lists-with-null-items", {}, [dict(variables={"in": aliased(camelCase=1, items=[1.5, None, 2.5]),
+                                                                                                   "l": [1.5, None, 2.5], "ll": [[None], [], None]})]
+        yield "renamed-fields-and-null-items-next-to-an-upload", {}, [dict(variables={"in": aliased(camelCase=2, **{"from": "x"}, items=[None]), "l": [None, 1], "f": "UPLOAD-0"})]
         yield "values-for-pydantic's-encoder", {}, [dict(variables={"when": datetime.datetime(2020, 1, 2, 3, 4, 5), "span": datetime.timedelta(minutes=90),
                                                                     "amount": decimal.Decimal("1.50"), "ids": [uuid.UUID(int=7)], "raw": b"bytes"})]
 
@@ -375,7 +382,7 @@ def bounded_agreement(tier, seed):
                               outcome={first_name: str(seen_by[first_name])[:700], differing[0]: str(seen_by[differing[0]])[:700]}))
     return dict(function=f"{DEP}base_client:BaseClient.execute", name="bounded.clients-agree",
                 kind="bounded stand-in (end-to-end through httpx.MockTransport, native)",
-                domain="8 configurations (constructor / call headers, caller content type, extra httpx arguments, read and re-sent uploads, non-JSON leaves) "
+                domain="10 configurations (constructor / call headers, caller content type, extra httpx arguments, read and re-sent uploads, non-JSON leaves) "
                        "x 6 client variants, pairwise identical requests", cases=cases, failed=len(fails), failures=fails)
 
 
